@@ -351,7 +351,8 @@ type wFetcher struct{}
 
 func wPkgIndex(u *url.URL) int {
 	for i := 0; i < wNPkg; i++ {
-		if wPkgAddr(i).URL().Path == u.Path {
+		pa := wPkgAddr(i) // (a variable: URL may be declared on either receiver kind)
+		if pa.URL().Path == u.Path {
 			return i
 		}
 	}
@@ -365,6 +366,11 @@ func (e *wErr) Error() string { return e.msg }
 func (wFetcher) FetchSourcePackage(ctx context.Context, sourceType string, u *url.URL, targetDir string) (FetchSourcePackageResponse, error) {
 	i := wPkgIndex(u)
 	wFetchCount[i]++
+	// The URL is the fetcher's to keep: a fetcher may rewrite it (go-getter strips its own query
+	// arguments). Nothing the builder does afterwards may depend on that.
+	u.Path = u.Path + "/rewritten-by-fetcher"
+	u.RawQuery = "rewritten=1"
+	u.Host = "rewritten.invalid"
 	if wCrashPoint != nil {
 		wCrashPoint()
 	}
